@@ -42,6 +42,7 @@ Definition errk_eqb (a b : errk) : bool :=
   match a, b with
   | EPre, EPre | EStaleKey, EStaleKey | EBroken, EBroken | EPrintFail, EPrintFail | EPost, EPost
   | EHelpArgs, EHelpArgs => true
+  | EUnknown a, EUnknown b => str_eqb a b
   | _, _ => false end.
 Definition out_eqb (a b : out) : bool :=
   match a, b with
